@@ -70,7 +70,7 @@ func genC19(x *Ctx) *c19Scen {
 	}
 	shapes := []struct{ m, p string }{
 		{"GET", "/u/%s"}, {"GET", "/u/%s/sub/k%s"}, {"POST", "/u/%s"}, {"GET", "/v/t%s/items/%s"}, {"PUT", "/u/%s"},
-		{"GET", "/nowhere/%s"}, {"GET", "/u/doc/%s.json"}, {"GET", "/u/num/x%sy"}, {"OPTIONS", "/u/%s"}, {"OPTIONS", "/v/t%s/items/%s"}, {"DELETE", "/v/t%s/items/%s"},
+		{"GET", "/nowhere/%s"}, {"GET", "/u/doc/%s.json"}, {"GET", "/u/num/x%sy"}, {"UNLOCK", "/many/%s"}, {"COPY", "/many/%s"}, {"OPTIONS", "/u/%s"}, {"OPTIONS", "/v/t%s/items/%s"}, {"DELETE", "/v/t%s/items/%s"},
 	}
 	tp.Repeat(2, maxSpecs, 650, func(i int) {
 		sh := shapes[tp.G(len(shapes))]
@@ -233,8 +233,14 @@ func c19BuildH(sc *c19Scen, history bool) *restful.Container {
 	ws2 := new(restful.WebService).Path("/v/{tenant}").Produces("text/plain", "application/json")
 	mk(ws2, ws2.GET("/items/{id}"))
 	mk(ws2, ws2.DELETE("/items/{id}"))
+	// one path served under many methods: a wrong method lists more than eight in the Allow header
+	ws3 := new(restful.WebService).Path("/many").Produces("application/json")
+	for _, m := range []string{"GET", "POST", "PUT", "DELETE", "PATCH", "HEAD", "MKCOL", "COPY", "MOVE", "LOCK", "PROPFIND"} {
+		mk(ws3, ws3.Method(m).Path("/{id}"))
+	}
 	addService(ws1)
 	addService(ws2)
+	addService(ws3)
 	return c
 }
 
